@@ -104,7 +104,9 @@ class NF:
             if cid.endswith("reshape_generic") and len(args) == 3:
                 # vec(·) is linear
                 inner = self.nf(args[0])
-                return {(s, ((("vec",), False),) + f): c for (s, f), c in inner.items()}
+                # … and idempotent: reshaping is a column-major re-interpretation of the same buffer, vec(reshape(X)) = vec(X)
+                V = (("vec",), False)
+                return {(s, f if f and f[0] == V else (V,) + f): c for (s, f), c in inner.items()}
         if self.is_scalar(t):
             return self.scalar(self.scalar_key(t))
         return self.atom(t)
